@@ -79,6 +79,12 @@ func gen(r *verifsim.Rng, tier string) (any, hx.Sched) {
 		w.Consumers = []int{-1}
 		w.Closers, w.CloseAfter = 1, true
 		w.SleepMask = 1 << uint(len(w.Producers)) // the consumer naps while the buffer fills
+		if r.Intn(2) == 0 {
+			// a first consumer takes a few values at once and leaves: the backlog then builds up
+			// in a buffer whose read position is no longer at its start
+			w.Consumers = []int{1 + r.Intn(40), -1}
+			w.SleepMask = 1 << uint(len(w.Producers)+1) // only the draining consumer naps
+		}
 		s := hx.SwarmSched(r, focus)
 		s.MeanGap = verifsim.Pick(r, []int64{30, 100, 1000})
 		s.MaxSteps = 1000000
